@@ -73,7 +73,7 @@ func runCloses(c CloseCase) (*closeStats, error) {
 	baseline := newLeakBaseline()
 	needUDP := false
 	for _, p := range c.Peers {
-		if p.Proto == "udp" {
+		if p.Proto == "udp" || p.Proto == "auto" {
 			needUDP = true
 		}
 	}
@@ -379,6 +379,11 @@ func (ps *closePeerState) reach(w *World, desc *description.Session) error {
 	cl := NewClient(w.Scheme, w.Host, &proto)
 	cl.ReadTimeout, cl.WriteTimeout = c13Timeout, c13Timeout
 	switch p.Proto {
+	case "auto":
+		// no protocol forced: UDP first; nothing is written to the stream while the peers are being set up, so the
+		// client gives up on UDP and sets the session up again over TCP by itself before the closing starts
+		cl.Protocol = nil
+		cl.InitialUDPReadTimeout = 200 * time.Millisecond
 	case "http":
 		cl.Tunnel = gortsplib.TunnelHTTP
 	case "ws":
@@ -445,6 +450,9 @@ func (ps *closePeerState) reach(w *World, desc *description.Session) error {
 	}
 	if _, err := cl.Play(nil); err != nil {
 		return err
+	}
+	if p.Proto == "auto" {
+		time.Sleep(600 * time.Millisecond) // the automatic switch to TCP happens here
 	}
 	if p.Phase == "paused" {
 		_, err := cl.Pause()
